@@ -146,9 +146,9 @@ def cmp_validate(ctx, drv, ref_mb, tgt_mb, data, metric, family="validate"):
                 break
             # numpy evaluates the metric in float32: a squared difference above 3.4e38 overflows to +inf where the model's ideal
             # arithmetic yields a huge finite mean (tensors have far fewer than 1e8 elements, so a mean below 1e30 cannot overflow)
-            overflow = lambda k: metric == "mse" and float(got[grp][k]) == math.inf and float(mg[k]) >= 1e30  # noqa: E731
+            overflow = lambda k: float(got[grp][k]) == math.inf and float(mg[k]) >= 1e30  # noqa: E731  (mse: squares; mdr: ratios)
             if any(overflow(k) for k in mg):
-                ctx.tag("mse_float32_overflow")
+                ctx.tag("metric_float32_overflow")
             bad = [k for k in mg if not close(float(got[grp][k]), mg[k]) and not overflow(k)]
             if bad:
                 ctx.disagree(family, small, {bad[0]: float(mg[bad[0]])}, {bad[0]: float(got[grp][bad[0]])})
@@ -196,7 +196,8 @@ def oracle(ctx, ref_mb, tgt_mb, data, metric, real, fail, self_compare=False):
                 return fail(f"comparing a model with itself reports {got} for {n}", "self-nonzero")
             if not math.isfinite(got):
                 # the library evaluates in float32: only a mean of squares beyond ~1e30 can overflow; anything else non-finite is not a metric value
-                if metric == "mse" and got == math.inf and want >= 1e30:
+                # (median_diff_ratio divides by |ref| + 1e-6: a ratio beyond 3.4e38 overflows in float32 just the same)
+                if got == math.inf and want >= 1e30:
                     continue
                 return fail(f"value reported for {n} is {got} (the documented metric of the sanitised contents is {want})", "value-nonfinite")
             if got < 0:
